@@ -3,6 +3,8 @@
 //   coll vals <seed> <rounds>      -> value tests.  All ranks derive ALL ranks' inputs from the seed; each test prints
 //                                       `r <round> <test> <result>` on every rank and `i <round> <test> <in_0> … <in_{n-1}>` on rank 0.
 //                                     Strings are written `_<chars>`, vectors `_item,item,…` (item = str:int).
+//                                     IEEE tests (`f…:f32|f64`) print float/double as hex bit patterns (`nan` canonical): rounding-
+//                                     sensitive magnitudes, near-overflow values, one infinity.
 //   coll async <seed> <rounds> [nfn] -> "free-function reductions complete outstanding asyncs": chains of asyncs are issued and a
 //                                     free function is called WITHOUT a barrier; prints `a <round> <fn> <handlers run here> <expected>`
 //   coll prims                     -> brackets one call of every collective with `enter <c>` / `exit <c>` events on the wire log
@@ -11,6 +13,8 @@
 #include <ygm/comm.hpp>
 #include <ygm/collective.hpp>
 #include <algorithm>
+#include <cmath>
+#include <cstring>
 #include <limits>
 #include <type_traits>
 #include <utility>
@@ -70,6 +74,63 @@ static std::vector<std::string> gen_strs(hc::rng& g) { std::vector<std::string> 
 static vec_t gen_vec1(hc::rng& g) { vec_t v; int L = (int)g.below(4); for (int j = 0; j < L; ++j) { std::string s = gen_str(g, 2); s.push_back((char)('a' + g.below(26))); v.emplace_back(s, (int)g.below(199) - 99); } return v; }
 static std::vector<vec_t> gen_vecs(hc::rng& g) { std::vector<vec_t> v(g_size); for (auto& x : v) x = gen_vec1(g); return v; }
 
+// ------------------------------------------------------------------ IEEE float / double, bit exact
+template <class T> std::string fshow(const T& v) {
+  if (v != v) return "nan";
+  char buf[32];
+  if constexpr (sizeof(T) == 4) { uint32_t b; memcpy(&b, &v, 4); snprintf(buf, sizeof buf, "%08x", b); }
+  else { uint64_t b; memcpy(&b, &v, 8); snprintf(buf, sizeof buf, "%016llx", (unsigned long long)b); }
+  return buf;
+}
+template <class T> void femit(int round, const std::string& test, const std::vector<T>& in, const T& res) {
+  hc::out("r " + std::to_string(round) + " " + test + " " + fshow(res));
+  if (g_rank == 0) { std::string l = "i " + std::to_string(round) + " " + test; for (auto& x : in) l += " " + fshow(x); hc::out(l); }
+}
+// rounding-sensitive inputs: no NaN, no -0.0, at most one infinity per vector (so the unchanged code never produces NaN
+// in a rank-order fold); adding a value to a much smaller prefix absorbs it, partial sums may overflow
+template <class T> std::vector<T> gen_ieee(hc::rng& g) {
+  const T MAXV = std::numeric_limits<T>::max();
+  const T big = sizeof(T) == 4 ? (T)1e8 : (T)1e16;          // above 2^24 resp. 2^53: big + 1 == big
+  const T mixed[] = {(T)1, big, (T)0.1, -big, (T)3, (T)1e-3, (T)0.5, big * 3, (T)-1, (T)0.3, (T)0.7, big / 7};
+  const T nearmax[] = {MAXV * (T)0.6, MAXV * (T)0.75, MAXV, -MAXV * (T)0.5, (T)1, MAXV * (T)0.3, MAXV * (T)0.9};
+  const T smalls[] = {(T)1, (T)0.5, (T)0.1, (T)0.3, (T)2.5};
+  std::vector<T> v(g_size);
+  int style = (int)g.below(5);
+  int infpos = (int)g.below(g_size); bool infneg = g.below(2);
+  for (int i = 0; i < g_size; ++i) {
+    switch (style) {
+      case 0: v[i] = mixed[g.below(12)]; break;
+      case 1: v[i] = nearmax[g.below(7)]; break;
+      case 2: v[i] = (i == infpos) ? (infneg ? -std::numeric_limits<T>::infinity() : std::numeric_limits<T>::infinity()) : mixed[g.below(12)]; break;
+      case 3: { T m = (T)0.5 + (T)((double)(g.next() >> 11) / 9007199254740992.0) / 2; int e = (int)g.below(81) - 40;
+                v[i] = std::ldexp(m, e) * (g.below(2) ? (T)1 : (T)-1); break; }
+      default: v[i] = (i % 2 == 0) ? smalls[g.below(5)] : (g.below(2) ? big : big * 3) * (g.below(4) == 0 ? (T)-1 : (T)1); break;   // large after small
+    }
+  }
+  return v;
+}
+template <class T> void ieee(ygm::comm& w, hc::rng& g, int round, const std::string& ty) {
+  auto in = gen_ieee<T>(g);
+  const T m = in[g_rank];
+  w.barrier();
+  femit(round, "fall_reduce_sum:" + ty, in, w.all_reduce_sum(m));
+  femit(round, "fall_reduce_min:" + ty, in, w.all_reduce_min(m));
+  femit(round, "fall_reduce_max:" + ty, in, w.all_reduce_max(m));
+  w.barrier();
+  femit(round, "ftree_SUM:" + ty, in, w.all_reduce(m, [](const T& a, const T& b) { return (T)(a + b); }));
+  femit(round, "ftree_MIN:" + ty, in, w.all_reduce(m, [](const T& a, const T& b) { return b < a ? b : a; }));
+  femit(round, "ftree_MAX:" + ty, in, w.all_reduce(m, [](const T& a, const T& b) { return a < b ? b : a; }));
+  femit(round, "fsum:" + ty, in, ygm::sum(m, w));
+  femit(round, "fmin:" + ty, in, ygm::min(m, w));
+  femit(round, "fmax:" + ty, in, ygm::max(m, w));
+  femit(round, "fprefix_sum:" + ty, in, ygm::prefix_sum(m, w));
+  int root = (int)g.below(g_size);
+  T b = m;
+  w.barrier();
+  ygm::bcast(b, root, w);
+  femit(round, "fbcast:" + ty + ":" + std::to_string(root), in, b);
+}
+
 // ------------------------------------------------------------------ value tests
 template <class T> void numeric(ygm::comm& w, hc::rng& g, int round, const std::string& ty) {
   auto full = gen<T>(g, false), small = gen<T>(g, true);
@@ -117,6 +178,10 @@ static void vals(ygm::comm& w, uint64_t seed, int rounds) {
     numeric<uint8_t>(w, g, round, "u8");  numeric<uint16_t>(w, g, round, "u16");
     numeric<uint32_t>(w, g, round, "u32"); numeric<uint64_t>(w, g, round, "u64");
     numeric<double>(w, g, round, "f64");
+    for (int k = 0; k < 3; ++k) {   // three input styles per round and type
+      ieee<float>(w, g, round * 3 + k, "f32");
+      ieee<double>(w, g, round * 3 + k, "f64");
+    }
     {  // bool
       auto in = gen<bool>(g, false); bool m = in[g_rank];
       emit(round, "logical_and", in, ygm::logical_and(m, w));
